@@ -1,4 +1,6 @@
-use super::field_utils::{parse_name_and_address, parse_party_identifier};
+use super::field_utils::{
+    ensure_no_surplus_lines, parse_name_and_address, parse_party_identifier,
+};
 use super::swift_utils::{parse_bic, parse_swift_chars};
 use crate::errors::ParseError;
 use crate::traits::SwiftField;
@@ -49,6 +51,7 @@ impl SwiftField for Field52A {
         }
 
         let bic = parse_bic(lines[bic_line_idx])?;
+        ensure_no_surplus_lines(&lines, bic_line_idx + 1, "Field 52A")?;
 
         Ok(Field52A {
             party_identifier,
@@ -127,11 +130,19 @@ impl SwiftField for Field52B {
         // Check for location
         if current_idx < lines.len() {
             let loc = lines[current_idx];
-            if !loc.is_empty() && loc.len() <= 35 {
-                parse_swift_chars(loc, "Field 52B location")?;
-                location = Some(loc.to_string());
+            if loc.is_empty() || loc.len() > 35 {
+                return Err(ParseError::InvalidFormat {
+                    message: format!(
+                        "Field 52B location must be 1 to 35 characters, found {}",
+                        loc.len()
+                    ),
+                });
             }
+            parse_swift_chars(loc, "Field 52B location")?;
+            location = Some(loc.to_string());
+            current_idx += 1;
         }
+        ensure_no_surplus_lines(&lines, current_idx, "Field 52B")?;
 
         Ok(Field52B {
             party_identifier,
